@@ -1043,3 +1043,48 @@ func freshResult(c *ssa.Call) *ssa.Alloc {
 	}
 	return obj
 }
+
+// deadStore: the value written by st (a store to field tf of some object) can never be observed when
+// the path continues without following a cut edge: every such path from st runs into another store to
+// the same field of the same object before the function returns, calls anything (the callee, a started
+// goroutine or a deferred call could read the object) or loads the field / the whole object itself.
+// `o.f = x; if x < min { o.f = min }` is `if x < min { o.f = min } else { o.f = x }`: with the edges on
+// which x is known to be large enough cut, the first store is dead. The witness (the observer reached)
+// is returned, nil when the store is dead.
+func deadStore(f *ssa.Function, st *ssa.Store, tf string, cut []core.Edge) ssa.Instruction {
+	fa, ok := st.Addr.(*ssa.FieldAddr)
+	if !ok {
+		return st
+	}
+	base := resolveLocal(fa.X)
+	sameField := func(addr ssa.Value) bool {
+		a, ok := addr.(*ssa.FieldAddr)
+		return ok && a.Field == fa.Field && core.FieldAddrName(a) == tf && resolveLocal(a.X) == base
+	}
+	overwrite := func(in ssa.Instruction) bool {
+		s2, ok := in.(*ssa.Store)
+		return ok && s2 != st && sameField(s2.Addr)
+	}
+	observe := func(in ssa.Instruction) bool {
+		switch x := in.(type) {
+		case *ssa.Return, *ssa.Go, *ssa.Defer, *ssa.Panic:
+			return true
+		case *ssa.Call:
+			if _, isB := x.Call.Value.(*ssa.Builtin); isB && !x.Call.IsInvoke() {
+				return false
+			}
+			return true
+		case *ssa.UnOp:
+			if x.Op != token.MUL {
+				return false
+			}
+			return sameField(x.X) || resolveLocal(x.X) == base
+		}
+		return false
+	}
+	w, bad := core.Reach(core.Q{From: []core.At{core.After(st)}, Target: observe, Blocked: overwrite, Cut: core.CutSet(cut)})
+	if bad {
+		return w
+	}
+	return nil
+}
